@@ -336,6 +336,17 @@ func (p *StreamPair) Reset() {
 	}
 }
 
+// Fin ends one direction in an orderly way, as a relay or middlebox closing its
+// socket towards the reader does: the reader drains what is buffered and then
+// sees end of stream; later writes in that direction fail.
+func (p *StreamPair) Fin(d Dir) {
+	h := p.half(d)
+	h.mu.Lock()
+	h.wclosed = true
+	h.signalLocked()
+	h.mu.Unlock()
+}
+
 // BlackHole makes writes in one direction vanish.
 func (p *StreamPair) BlackHole(d Dir) {
 	h := p.half(d)
